@@ -26,6 +26,7 @@ type wiring struct {
 	ptopic int // publish topic
 	shape  int // 0 none, 1 one fresh, 2 two fresh, 3 the consumed message itself, 4 one shared object
 	noPub  bool
+	nilPub bool // (with noPub) registered through AddHandler with a nil publisher
 }
 
 var shapeNames = []string{"none", "one", "two", "self", "shared"}
@@ -103,8 +104,9 @@ func scenarioD(H int, withNoPub bool, shapes []int, msgsPerTopic, c int, inFligh
 			ws[0].name = ""
 		}
 		if withNoPub {
-			k := vs.Choose(4, 0, "nopub wiring")
-			ws = append(ws, wiring{name: "np", sub: k & 1, topic: (k >> 1) & 1, noPub: true, shape: 1})
+			// ... registered through AddNoPublisherHandler, or through AddHandler with a nil publisher
+			k := vs.Choose(8, 0, "nopub wiring")
+			ws = append(ws, wiring{name: "np", sub: k & 1, topic: (k >> 1) & 1, noPub: true, nilPub: (k>>2)&1 == 1, shape: 1})
 		}
 		r, err := message.NewRouter(message.RouterConfig{}, nil)
 		if err != nil {
@@ -157,10 +159,18 @@ func scenarioD(H int, withNoPub bool, shapes []int, msgsPerTopic, c int, inFligh
 				return append([]*message.Message{}, iv.outs...), nil
 			}
 			if w.noPub {
-				h := r.AddNoPublisherHandler(w.name, topics[w.topic], subs[w.sub], func(m *message.Message) error {
-					_, err := fn(m)
-					return err
-				})
+				var h *message.Handler
+				if w.nilPub {
+					h = r.AddHandler(w.name, topics[w.topic], subs[w.sub], "", nil, func(m *message.Message) ([]*message.Message, error) {
+						_, err := fn(m)
+						return nil, err
+					})
+				} else {
+					h = r.AddNoPublisherHandler(w.name, topics[w.topic], subs[w.sub], func(m *message.Message) error {
+						_, err := fn(m)
+						return err
+					})
+				}
 				// a middleware that makes the chain return messages
 				h.AddMiddleware(func(next message.HandlerFunc) message.HandlerFunc {
 					return func(m *message.Message) ([]*message.Message, error) {
@@ -301,6 +311,10 @@ func scenarioD(H int, withNoPub bool, shapes []int, msgsPerTopic, c int, inFligh
 func describe(ws []wiring) string {
 	var p []string
 	for _, w := range ws {
+		if w.noPub {
+			p = append(p, fmt.Sprintf("%s(s%d,t%d, no publisher, nil publisher through AddHandler=%v)", w.name, w.sub, w.topic+1, w.nilPub))
+			continue
+		}
 		p = append(p, fmt.Sprintf("%s(s%d,t%d->p%d,o%d,%s)", w.name, w.sub, w.topic+1, w.pub, w.ptopic+1, shapeNames[w.shape]))
 	}
 	return strings.Join(p, " ")
